@@ -1,13 +1,84 @@
 """
 Spec functions for property C13 (mechanism contracts): value classes and the union-find partition view.
+
+Value classes (fpy2/analysis/value_class.py).  The concretisation of an abstract value S (a ValueClass flag
+set) is  gamma(S) = { v : Float | class_of(v) in S }.  A transfer function F# of an exact operation F is
+SOUND when  class_of(F(x, y)) in F#(a, b)  for all x in gamma(a), y in gamma(b).  This is proved in two
+steps that compose:
+  (S) singleton soundness with symbolic Floats:  class_of(F(x, y)) in F#({class_of x}, {class_of y});
+  (J) F# distributes over joins of atoms (so it is monotone): F#(a, b) == U { F#(p, q) | atom p in a, atom q in b },
+      checked on all 16 x 16 abstract values (the Flag domain is finite; the engine has concrete flags only).
+(S) + (J) give soundness for every a containing class_of x and b containing class_of y.
 """
 from speclib import *
 from spec.real import *
 from spec.floats import *
 from spec.c05 import *
+from fpy2.number import REAL
+from fpy2.ops import logb as ops_logb, add as ops_add, sub as ops_sub, mul as ops_mul, neg as ops_neg, fabs as ops_fabs, pow as ops_pow
 from fpy2.analysis.value_class import (ValueClass, class_of, _exact_add, _exact_mul, _map, _LOGB, _POW_POS_BASE)
 
 
+VC_ATOMS = (ValueClass.NAN, ValueClass.INF, ValueClass.ZERO, ValueClass.FINITE)
+
+
+def vc_bot():
+    return ValueClass(0)
+
+
+def vc_all():
+    """the 16 elements of the lattice"""
+    return [ValueClass(k) for k in range(16)]
+
+
 def vc_has(s, atom):
-    """the class set s (a ValueClass flag) contains the atom"""
+    """the class set s contains the atom"""
     return (s & atom) == atom
+
+
+def vc_subset(a, b):
+    return (a & b) == a
+
+
+def vc_atoms(a):
+    """the atoms of the class set a"""
+    return [p for p in VC_ATOMS if vc_has(a, p)]
+
+
+def vc_join(xs):
+    out = ValueClass(0)
+    for x in xs:
+        out = out | x
+    return out
+
+
+def vc_is_atom(r):
+    return r == ValueClass.NAN or r == ValueClass.INF or r == ValueClass.ZERO or r == ValueClass.FINITE
+
+
+def vc_lift2(f, a, b):
+    """the join-extension of f's values on atoms:  U { f(p, q) | atom p in a, atom q in b }"""
+    return vc_join([f(p, q) for p in vc_atoms(a) for q in vc_atoms(b)])
+
+
+def vc_lift1(table, a):
+    """U { table[p] | atom p in a }"""
+    return vc_join([table[p] for p in vc_atoms(a)])
+
+
+def vc_monotone2(f, a, b):
+    """f(a, b) is below f(a2, b2) for every a2 above a and b2 above b"""
+    r = f(a, b)
+    return all([vc_subset(r, f(a2, b2)) for a2 in vc_all() if vc_subset(a, a2) for b2 in vc_all() if vc_subset(b, b2)])
+
+
+# the class of a Float, from the definitions of the four classes (module docstring of value_class.py):
+# NaN / infinite / zero (either sign) / finite and non-zero
+
+def fl_class(x):
+    return ite(x._isnan, 1, ite(x._isinf, 2, ite(x._real._c == 0, 4, 8)))
+
+
+def vc_code(r):
+    """the bit of an atom as an int"""
+    return 1 if r == ValueClass.NAN else (2 if r == ValueClass.INF else (4 if r == ValueClass.ZERO else (8 if r == ValueClass.FINITE else 0)))
